@@ -68,6 +68,9 @@ def creations(cls, bits):
                 ('kw-bytes', [f"a = bitstring.{cls}(bytes={by!r})"])]
         out += [('bytearray', [f"ext = bytearray({by!r})", f"a = bitstring.{cls}(ext)"]),
                 ('memoryview', [f"ext = bytearray({by!r})", f"a = bitstring.{cls}(memoryview(ext))"]),
+                ('memoryview-readonly', [f"ext = bytearray({by!r})", f"a = bitstring.{cls}(memoryview(ext).toreadonly())"]),
+                ('memoryview-readonly-window', [f"ext = bytearray({by + b'Z'!r})", f"a = bitstring.{cls}(memoryview(ext).toreadonly()[:-1])"]),
+                ('memoryview-bytes-kw', [f"ext = bytearray({by!r})", f"a = bitstring.{cls}(bytes=memoryview(ext).toreadonly())"]),
                 ('array', [f"ext = array.array('B', {by!r})", f"a = bitstring.{cls}(ext)"]),
                 ('bytesio', [f"ext = bytearray({by!r})", f"a = bitstring.{cls}(io.BytesIO(ext))"])]
     return out
